@@ -112,3 +112,45 @@ Proof.
   split; [destruct Hin as [ph [_ [Hs _]]]; exact Hs|].
   repeat split. apply (in_frame_translates code s (fst (revcomp_seq s))); assumption.
 Qed.
+
+(* ---- a verbatim copy of the reference is trimmed at its start: exhaustively, in the kernel, on a finite
+   domain (three reference ORFs, every left and right flank of length 0..2 over {A,C,G,T}, both modes,
+   one or both strands, standard code), whenever the flanked sequence holds the ORF exactly once *)
+From GA.Spec Require Import LocalEnum.
+Local Open Scope bs_scope.
+Fixpoint is_prefix (p s : list byte) : bool :=
+  match p, s with [], _ => true | a :: p', b :: s' => Byte.eqb a b && is_prefix p' s' | _ :: _, [] => false end.
+Fixpoint occ (fuel : nat) (p s : list byte) : nat :=
+  match fuel with O => O | S f => ((if is_prefix p s then 1 else 0) + match s with [] => O | _ :: t => occ f p t end)%nat end.
+Definition occurrences (p s : list byte) : nat := occ (S (length s)) p s.
+Definition flanks : list (list byte) := [] :: upto 2 [x41; x43; x47; x54].
+Definition small_orfs : list (list byte) := [unbs "ATGGCTTAA"; unbs "ATGAAATGA"; unbs "ATGTGGCATTAG"].
+Definition verbatim_ok (translate rev_too : bool) (orf : list byte) : bool :=
+  forallb (fun l => forallb (fun r =>
+    let s := l ++ orf ++ r in
+    if negb (Nat.eqb (occurrences orf s) 1) || (rev_too && negb (Nat.eqb (occurrences orf (fst (revcomp_seq s))) 0)) then true
+    else match phase_all translate rev_too false 0 (Some [orf]) [s] with
+         | Some [ORes p] => Z.eqb (p_pos p) (Z.of_nat (length l))
+         | _ => false end) flanks) flanks.
+
+Lemma verbatim_all : forallb (fun o => forallb (fun tr => forallb (fun rv => verbatim_ok tr rv o) [false; true]) [true; false]) small_orfs = true.
+Proof. vm_compute. reflexivity. Qed.
+
+Theorem verbatim_copy_trimmed_at_orf_start_small :
+  forall orf translate rev_too l r, In orf small_orfs -> In l flanks -> In r flanks ->
+  let s := l ++ orf ++ r in
+  occurrences orf s = 1%nat -> (rev_too = true -> occurrences orf (fst (revcomp_seq s)) = 0%nat) ->
+  exists p, phase_all translate rev_too false 0 (Some [orf]) [s] = Some [ORes p] /\ p_pos p = Z.of_nat (length l).
+Proof.
+  intros orf translate rev_too l r Ho Hl Hr s H1 H2.
+  pose proof verbatim_all as H. rewrite forallb_forall in H. specialize (H orf Ho).
+  rewrite forallb_forall in H. assert (Ht : In translate [true; false]) by (destruct translate; cbn; auto). specialize (H translate Ht).
+  rewrite forallb_forall in H. assert (Hv : In rev_too [false; true]) by (destruct rev_too; cbn; auto). specialize (H rev_too Hv).
+  unfold verbatim_ok in H. rewrite forallb_forall in H. specialize (H l Hl). rewrite forallb_forall in H. specialize (H r Hr).
+  fold s in H. rewrite H1 in H. cbn [Nat.eqb negb orb] in H.
+  assert (E : (rev_too && negb (Nat.eqb (occurrences orf (fst (revcomp_seq s))) 0)) = false).
+  { destruct rev_too; [|reflexivity]. rewrite (H2 eq_refl). reflexivity. }
+  rewrite E in H.
+  destruct (phase_all translate rev_too false 0 (Some [orf]) [s]) as [[|[|p] [|? ?]]|]; try discriminate.
+  exists p. split; [reflexivity | apply Z.eqb_eq; exact H].
+Qed.
